@@ -113,6 +113,8 @@ class World:
                 return "skipped"
             try:
                 act.apply(step)
+                if k == "callback":
+                    act.hidden["cb_hook"] = self.cb_hook(act)
             except KeyError as e:
                 return "skipped"
             except Exception as e:
@@ -155,6 +157,8 @@ class World:
             if declared_fingerprint(act.ocp) != fp0:
                 raise Violation("declared-changed", "%s altered what the user declared" % json.dumps(step)[:200])
             return out
+        if k == "warmstart":
+            return self._warmstart(act, st, step)
         if k == "save":
             return self._save(act, st, step)
         if k == "load":
@@ -196,6 +200,53 @@ class World:
         if step["op"] == "sym":
             return False
         return any(n not in act.syms for n in names if not n.startswith("?"))
+
+    # -- MPC-style warm start: the guess is taken from the last solution (concretised into the step list)
+    def _warmstart(self, act, st, step):
+        sol = self.last_sol.get(act.name)
+        x = step.get("x")
+        sd = act.spec.sym(x) if x else None
+        if sol is None or sd is None or x not in act.syms or act.spec.method is None:
+            return "skipped"
+        try:
+            _, v = sol.sample(act.syms[x], grid="control")
+        except Exception as e:
+            return "raised:" + type(e).__name__
+        rows = sd.get("rows", 1) * sd.get("cols", 1)
+        N = act.spec.method["N"]
+        a = np.array(v, dtype=float)
+        a = a.reshape((-1, rows)).T if a.ndim > 1 or rows == 1 else a.reshape((rows, -1))
+        if a.shape != (rows, N + 1) or not np.all(np.isfinite(a)):
+            return "skipped"
+        if sd["kind"] == "control" or (sd["kind"] == "variable" and not sd.get("include_last")):
+            a = a[:, :N]
+        if a.shape[1] == rows and rows > 1:
+            return "skipped"
+        new = {"op": "set_initial", "a": step.get("a", "A"), "x": x, "g": ["arr", np.round(a, 6).tolist(), "np"], "from": "warmstart"}
+        step.clear()
+        step.update(new)  # the replay file carries the concrete numbers, not the dependence on a solution
+        self.probe("warmstart")
+        return self._execute(-1, step, step["a"], "set_initial")
+
+    def cb_hook(self, act):
+        """what the registered callback does when the real solver calls it between iterations: re-entry"""
+        def hook(it, sol):
+            self.probe("callback_invoked")
+            try:
+                xs = act.spec.names("state")
+                if xs:
+                    sol.sample(act.syms[xs[0]], grid="control")
+                act.ocp.value(act.ocp.T)  # re-entrant query on the OCP that is being solved
+                for other in self.actors.values():
+                    if other is not act and other.ocp is not None and other.spec.method is not None:
+                        other.ocp.sample(other.ocp.t, grid="control")  # forces a foreign transcription inside this solve
+                        self.probe("callback_reentry_foreign_actor")
+                        break
+                self.probe("callback_reentry")
+            except Exception as e:
+                # (seen: CasADi refuses sol.value of a decision variable that Opti dropped from the NLP)
+                self.probe("callback_reentry_raised")
+        return hook
 
     # -- queries
     def _query(self, act, st, step):
@@ -424,7 +475,7 @@ def fetch_symbols(ocp, spec):
 DEFAULT_WEIGHTS = {
     "set_value": 3, "set_initial": 3, "subject_to": 2, "clear_constraints": 0.7, "add_objective": 1, "method": 2, "solver": 1,
     "set_T": 1, "set_t0": 0.6, "query": 2, "solve": 3, "read_ncs": 0.3, "check": 2, "reject": 0.5, "save": 0, "load": 0,
-    "late_sym": 0.4, "callback": 0.2,
+    "late_sym": 0.4, "callback": 0.3, "mpc": 1.0,
 }
 
 
@@ -548,6 +599,19 @@ class Scheduler:
             return d
         if k == "read_ncs":
             return {"op": "read_ncs", "a": a}
+        if k == "mpc":
+            # MPC-like inner loop: new parameter value, solve, read back, warm start, solve
+            ps = sp.names("parameter")
+            tg = [t for t, s in G.guess_targets(sp) if s is not None and s["kind"] in ("state", "control")]
+            out = []
+            for _ in range(r.randint(1, 2)):
+                if ps:
+                    p = G.pick(r, ps)
+                    out.append({"op": "set_value", "a": a, "p": p, "v": G.positive_value(r) if sp.T == ["par", p] else G.gen_value(r, sp.sym(p), N)})
+                out.append({"op": "solve", "a": a, "how": "solve", "point": "seeded"})
+                if tg:
+                    out.append({"op": "warmstart", "a": a, "x": G.pick(r, tg)})
+            return out or None
         if k == "check":
             return {"op": "check", "a": a}
         if k == "callback":
@@ -669,10 +733,20 @@ def run_seed(prop, seed, base_cfg):
         names = ["A", "B"][: cfg["n_actors"]]
         for a in names:
             ops, _ = G.gen_base(r, cfg)
+            delayed = None
+            vals = [i for i, op in enumerate(ops) if op["op"] == "set_value"]
+            if vals and r.random() < cfg.get("p_delayed_value", 0.12):
+                # half-finished transcription: a parameter is left without value, the first solve raises,
+                # the user then supplies the value
+                delayed = ops.pop(G.pick(r, vals))
             for op in ops:
                 op["a"] = a
                 steps.append(op)
                 w.execute(len(steps) - 1, op)
+            if delayed is not None:
+                delayed["a"] = a
+                sched.queue += [{"op": "solve", "a": a, "how": "solve", "expect": "missing-value"}, delayed]
+                w.fault("missing_value_then_supplied")
         for i in range(cfg["nsteps"]):
             live = sorted(w.actors.keys())
             a = G.pick(r, live)
